@@ -131,6 +131,26 @@ def ignore_gates_for(repo, starred):
                 return attrs(st.body[0].value)
         elif isinstance(st, ast.Return):
             return attrs(st.value)
+        elif isinstance(st, ast.For) and any(isinstance(x, ast.Return) for x in ast.walk(st)):
+            # table-driven form:  for prefixes, option in <TABLE>: if starred.startswith(prefixes): return not getattr(self, option)
+            tbl = repo.module_assign('nbdime.prettyprint', st.iter.id) if isinstance(st.iter, ast.Name) else st.iter
+            ok_shape = isinstance(tbl, (ast.Tuple, ast.List)) and isinstance(st.target, ast.Tuple) and len(st.target.elts) == 2 and len(st.body) == 1 and \
+                isinstance(st.body[0], ast.If) and len(st.body[0].body) == 1 and isinstance(st.body[0].body[0], ast.Return)
+            if not ok_shape:
+                raise AnalysisError('should_ignore_path: loop form not modelled')
+            pv, ov = (e.id for e in st.target.elts)
+            ret = st.body[0].body[0].value
+            ga = [c for c in ast.walk(ret) if isinstance(c, ast.Call) and dotted(c.func) == 'getattr' and len(c.args) == 2 and dotted(c.args[1]) == ov]
+            t_ = st.body[0].test
+            if not (ga and isinstance(t_, ast.Call) and isinstance(t_.func, ast.Attribute) and t_.func.attr == 'startswith' and dotted(t_.args[0]) == pv):
+                raise AnalysisError('should_ignore_path: loop body not modelled')
+            for row in tbl.elts:
+                prefixes, option = row.elts
+                pf = tuple(const_val(x) for x in prefixes.elts) if isinstance(prefixes, (ast.Tuple, ast.List)) else const_val(prefixes)
+                if starred.startswith(pf):
+                    return {const_val(option)}
+        elif any(isinstance(x, ast.Return) for x in ast.walk(st)):
+            raise AnalysisError('should_ignore_path: statement `%s` not modelled' % ast.unparse(st)[:50])
     return set()
 
 
